@@ -62,6 +62,12 @@ def history_c01(r, quick):
         if cands:
             r.choice(cands)["explicit"] = "e0"
     fix_explicit(p0)
+    twice = False
+    if r.random() < 0.35:          # some functions publish their result under an override key of their own
+        for n in p0["nodes"]:
+            if n["kind"] == "mem" and not n.get("cls") and not n.get("lam") and not n.get("factory") and r.random() < 0.6:
+                n["ovr"] = True
+                twice = True
     p = copy.deepcopy(p0)
     mems = [n["name"] for n in p["nodes"] if n["kind"] == "mem"]
     steps = [{"do": "proc", "hashseed": "0"}, {"do": "call", "name": "m1"}]
@@ -81,6 +87,8 @@ def history_c01(r, quick):
         if r.random() < 0.2:
             alias_rebind(r, p, steps)
         steps.append({"do": "call", "name": "m1", "how": r.choice(["plain", "plain", "plain", "clone", "partial"])})
+        if twice:                  # (what the first call after the edit stored is read back by the second)
+            steps.append({"do": "call", "name": "m1", "how": "plain"})
         if r.random() < 0.3 and len(mems) > 1:
             steps.append({"do": "call", "name": r.choice(mems[1:])})
     return {"prog": p0, "steps": steps}
